@@ -400,6 +400,7 @@ class Run:
         os.makedirs(EVID, exist_ok=True)
         with open(os.path.join(EVID, "%s.json" % self.prop), "w") as f:
             json.dump(ev, f, indent=1, default=str)
+        shutil.rmtree(os.path.join(WORK, "p%d" % os.getpid()), ignore_errors=True)
         log("[%s] tier=%s evaluations=%d distinct_nontrivial=%d states=%d traces=%d violations=%d known=%s wall=%.1fs" % (
             self.prop, self.tier, cov["evaluations"], cov["distinct_nontrivial"], cov["states"],
             cov["traces_validated_against_impl"], len(self.violations), self.known_hits, ev["wall_s"]))
@@ -416,8 +417,10 @@ def run_tool(cmd, input_text=None, timeout=600, env=None, cwd=None, check=True):
 
 
 def workfile(name):
-    os.makedirs(WORK, exist_ok=True)
-    return os.path.join(WORK, name)
+    """scratch file under /verif/work, private to this process (concurrent checks must not collide)"""
+    d = os.path.join(WORK, "p%d" % os.getpid())
+    os.makedirs(d, exist_ok=True)
+    return os.path.join(d, name)
 
 
 def write_ndjson(path, objs):
